@@ -2,6 +2,7 @@ package main
 
 import (
 	"fmt"
+	"regexp"
 	"go/ast"
 	"go/token"
 	"os"
@@ -683,6 +684,395 @@ func (t *rdTr) constBytes(name string) ([]byte, bool) {
 	return []byte(u), true
 }
 
+// readBody: the statements of the scan loop of Reader.Read
+func (t *rdTr) readBody(stmts []ast.Stmt, ind string) string {
+	if len(stmts) == 0 {
+		return ".ok s"
+	}
+	rest := func() string { return t.readBody(stmts[1:], ind) }
+	st := stmts[0]
+	switch t.rsrc(st) {
+	case "r.line = r.scanner.Text()":
+		return rest()
+	case "r.lineNum++":
+		return "let s := { s with lineNum := s.lineNum + 1 }\n" + ind + rest()
+	case "lineLength := len(r.line)":
+		return "let lineLength : Nat := line.length\n" + ind + rest()
+	}
+	if g, ok := st.(*ast.IfStmt); ok {
+		// `if minLength := r.minRecordLength(); lineLength < minLength { ...; return r.File, r.error(err) }`
+		if as, ok := g.Init.(*ast.AssignStmt); ok && as.Tok == token.DEFINE && len(as.Rhs) == 1 && t.rsrc(as.Rhs[0]) == "r.minRecordLength()" && src(g.Cond) == "lineLength < "+src(as.Lhs[0]) && g.Else == nil {
+			if f, ok := t.returnsFileError(g.Body.List); ok {
+				return "if lineLength < minRecordLength m e line then .error (s, s.err .file " + leanStr(f) + ") else\n" + ind + rest()
+			}
+		}
+		// `if err := r.parseLine(); err != nil { return r.File, err }`
+		if as, ok := g.Init.(*ast.AssignStmt); ok && len(as.Rhs) == 1 && t.rsrc(as.Rhs[0]) == "r.parseLine()" && src(g.Cond) == "err != nil" && len(g.Body.List) == 1 && t.rsrc(g.Body.List[0]) == "return r.File, err" {
+			return "match step m e s line with\n" + ind + "| .error x => .error x\n" + ind + "| .ok s =>\n" + ind + rest()
+		}
+	}
+	t.bad("reader: Read loop statement not recognised: %s", strings.SplitN(src(st), "\n", 2)[0])
+	return ".error (s, s.err .plain \"?\")"
+}
+
+// returnsFileError: `[msg := ..;] err := &FileError{FieldName: F, ..}; return r.File, r.error(err)` or
+// `[r.recordName = "X";] return r.File, r.error(&FileError{..})`; gives F (and leaves the record name to the caller)
+func (t *rdTr) returnsFileError(stmts []ast.Stmt) (string, bool) {
+	field := ""
+	for i, st := range stmts {
+		if as, ok := st.(*ast.AssignStmt); ok && as.Tok == token.DEFINE && len(as.Lhs) == 1 {
+			if src(as.Lhs[0]) == "msg" {
+				continue
+			}
+			if src(as.Lhs[0]) == "err" {
+				ret := &ast.ReturnStmt{Results: []ast.Expr{&ast.CallExpr{Fun: ast.NewIdent(t.recv + ".error"), Args: []ast.Expr{as.Rhs[0]}}}}
+				f, ok := t.fileErrorReturn(ret)
+				if !ok {
+					return "", false
+				}
+				field = f
+				continue
+			}
+			return "", false
+		}
+		if r, ok := st.(*ast.ReturnStmt); ok && i == len(stmts)-1 && len(r.Results) == 2 && t.rsrc(r.Results[0]) == "r.File" {
+			if t.rsrc(r.Results[1]) == "r.error(err)" {
+				return field, true
+			}
+			f, ok := t.fileErrorReturn(&ast.ReturnStmt{Results: []ast.Expr{r.Results[1]}})
+			return f, ok
+		}
+		return "", false
+	}
+	return "", false
+}
+
+// readFinish: the statements behind the scan loop; Lean term of type `Option RErr`
+func (t *rdTr) readFinish(stmts []ast.Stmt, ind string) string {
+	if len(stmts) == 0 {
+		t.bad("reader: Read falls off its end")
+		return "none"
+	}
+	rest := func() string { return t.readFinish(stmts[1:], ind) }
+	st := stmts[0]
+	if t.rsrc(st) == "return r.File, nil" {
+		return "none"
+	}
+	if g, ok := st.(*ast.IfStmt); ok && g.Else == nil {
+		cond := ""
+		body := g.Body.List
+		if as, ok := g.Init.(*ast.AssignStmt); ok && len(as.Rhs) == 1 && t.rsrc(as.Rhs[0]) == "r.scanner.Err()" && src(g.Cond) == src(as.Lhs[0])+" != nil" {
+			cond = "scanErr"
+		} else if g.Init == nil {
+			switch t.rsrc(g.Cond) {
+			case "NewFileHeader() == r.File.Header":
+				cond = "s.headerUntouched" // no header line has been parsed into the fresh header
+			case "(FileControl{}) == r.File.Control":
+				cond = "(!ReaderRT.controlSet s)"
+			default:
+				if c, ok := t.cond(g.Cond); ok {
+					cond = c
+				}
+			}
+		}
+		if cond != "" {
+			name := ""
+			if len(body) > 0 {
+				if as, ok := body[0].(*ast.AssignStmt); ok && as.Tok == token.ASSIGN && len(as.Lhs) == 1 && t.rsrc(as.Lhs[0]) == "r.recordName" {
+					if bl, ok := as.Rhs[0].(*ast.BasicLit); ok && bl.Kind == token.STRING {
+						name = bl.Value
+						body = body[1:]
+					}
+				}
+			}
+			if f, ok := t.returnsFileError(body); ok {
+				st := "s"
+				if name != "" {
+					st = "({ s with recordName := " + name + " })"
+				}
+				return "if " + cond + " then some (" + st + ".err .file " + leanStr(f) + ") else\n" + ind + rest()
+			}
+		}
+	}
+	t.bad("reader: statement behind the scan loop not recognised: %s", strings.SplitN(src(st), "\n", 2)[0])
+	return "none"
+}
+
+// ---- minRecordLength / minImageViewDataLength: integer-valued functions of the line ----
+
+type mlTr struct {
+	rdTr
+	nats  map[string]bool   // locals holding lengths / offsets (Nat)
+	ints  map[string]bool   // locals holding a parsed number (Int)
+	strs  map[string]string // locals holding decoded bytes
+	inFor bool              // inside the loop over the section widths: `return x` leaves the loop with `.inl x`
+}
+
+var sliceRe = regexp.MustCompile(`^([A-Za-z_.]+)\[([^:\]]*):([^\]]*)\]$`)
+
+// bytes-valued expression: r.line, a decoded local, or a slice of one
+func (t *mlTr) bexpr(e ast.Expr) (string, bool) {
+	s := t.rsrc(e)
+	if s == "r.line" {
+		return "line", true
+	}
+	if id, ok := e.(*ast.Ident); ok {
+		if v, ok := t.strs[id.Name]; ok {
+			return v, true
+		}
+	}
+	if sl, ok := e.(*ast.SliceExpr); ok && sl.Max == nil {
+		base, ok := t.bexpr(sl.X)
+		if !ok {
+			return "", false
+		}
+		lo, hi := "0", ""
+		if sl.Low != nil {
+			v, ok := t.nexpr(sl.Low)
+			if !ok {
+				return "", false
+			}
+			lo = v
+		}
+		if sl.High != nil {
+			v, ok := t.nexpr(sl.High)
+			if !ok {
+				return "", false
+			}
+			hi = v
+		}
+		if hi == "" {
+			return "(" + base + ".drop " + lo + ")", true
+		}
+		if lo == "0" {
+			return "(" + base + ".take " + hi + ")", true
+		}
+		return "((" + base + ".drop " + lo + ").take (" + hi + " - " + lo + "))", true
+	}
+	return "", false
+}
+
+// Nat-valued expression
+func (t *mlTr) nexpr(e ast.Expr) (string, bool) {
+	switch x := e.(type) {
+	case *ast.ParenExpr:
+		return t.nexpr(x.X)
+	case *ast.BasicLit:
+		if x.Kind == token.INT {
+			return x.Value, true
+		}
+	case *ast.Ident:
+		if t.nats[x.Name] {
+			return leanIdent(x.Name), true
+		}
+		if t.ints[x.Name] {
+			return leanIdent(x.Name) + ".toNat", true // only reached behind the guard `n < 0 -> return`
+		}
+	case *ast.CallExpr:
+		if src(x.Fun) == "len" && len(x.Args) == 1 {
+			if b, ok := t.bexpr(x.Args[0]); ok {
+				return b + ".length", true
+			}
+		}
+	case *ast.BinaryExpr:
+		if x.Op == token.ADD {
+			a, ok1 := t.nexpr(x.X)
+			b, ok2 := t.nexpr(x.Y)
+			if ok1 && ok2 {
+				return "(" + a + " + " + b + ")", true
+			}
+		}
+	}
+	return "", false
+}
+
+func leanIdent(n string) string {
+	if n == "end" {
+		return "end_"
+	}
+	return n
+}
+
+func (t *mlTr) ret(v string) string {
+	if t.inFor {
+		return "Sum.inl " + v
+	}
+	return v
+}
+
+// mblock: Lean term of type Nat (or `Sum Nat Nat` inside the loop: inl = returned, inr = next offset)
+func (t *mlTr) mblock(stmts []ast.Stmt, ind string) string {
+	if len(stmts) == 0 {
+		if t.inFor {
+			return "Sum.inr end_"
+		}
+		t.bad("minlen: falls off its end")
+		return "0"
+	}
+	rest := func(n int) string { return t.mblock(stmts[n:], ind) }
+	fail := func() string {
+		t.bad("minlen: statement not recognised: %s", strings.SplitN(src(stmts[0]), "\n", 2)[0])
+		return "0"
+	}
+	switch s := stmts[0].(type) {
+	case *ast.ReturnStmt:
+		if len(s.Results) == 1 {
+			if v, ok := t.nexpr(s.Results[0]); ok {
+				return t.ret(v)
+			}
+			if t.rsrc(s.Results[0]) == "r.minImageViewDataLength()" {
+				return t.ret("minImageViewDataLength m e line")
+			}
+		}
+	case *ast.IfStmt:
+		if s.Init == nil && s.Else == nil && len(s.Body.List) == 1 {
+			if r, ok := s.Body.List[0].(*ast.ReturnStmt); ok && len(r.Results) == 1 {
+				rv, okr := t.nexpr(r.Results[0])
+				c := ""
+				switch x := s.Cond.(type) {
+				case *ast.BinaryExpr:
+					if x.Op == token.LSS {
+						if id, ok := x.X.(*ast.Ident); ok && t.ints[id.Name] && src(x.Y) == "0" {
+							c = leanIdent(id.Name) + " < 0"
+						} else {
+							a, ok1 := t.nexpr(x.X)
+							b, ok2 := t.nexpr(x.Y)
+							if ok1 && ok2 {
+								c = a + " < " + b
+							}
+						}
+					}
+					// `err != nil || len(head) < 22`: decodeLine is total, the first disjunct is dropped
+					if x.Op == token.LOR && src(x.X) == "err != nil" {
+						if y, ok := x.Y.(*ast.BinaryExpr); ok && y.Op == token.LSS {
+							a, ok1 := t.nexpr(y.X)
+							b, ok2 := t.nexpr(y.Y)
+							if ok1 && ok2 {
+								c = a + " < " + b
+							}
+						}
+					}
+					// `err != nil` alone: never
+					if x.Op == token.NEQ && src(x) == "err != nil" {
+						return rest(1)
+					}
+				}
+				if c != "" && okr {
+					return "if " + c + " then " + t.ret(rv) + " else\n" + ind + rest(1)
+				}
+			}
+		}
+	case *ast.AssignStmt:
+		// `head, err := r.decodeLine(X)`
+		if len(s.Lhs) == 2 && len(s.Rhs) == 1 && s.Tok == token.DEFINE && src(s.Lhs[1]) == "err" {
+			if c, ok := s.Rhs[0].(*ast.CallExpr); ok && t.rsrc(c.Fun) == "r.decodeLine" && len(c.Args) == 1 {
+				if b, ok := t.bexpr(c.Args[0]); ok {
+					name := src(s.Lhs[0])
+					t.strs[name] = name
+					return "let " + name + " := dec " + b + "\n" + ind + rest(1)
+				}
+			}
+		}
+		// `n, _ := strconv.Atoi(strings.TrimSpace(X))`
+		if len(s.Lhs) == 2 && len(s.Rhs) == 1 && s.Tok == token.DEFINE && src(s.Lhs[1]) == "_" {
+			if c, ok := s.Rhs[0].(*ast.CallExpr); ok && src(c.Fun) == "strconv.Atoi" && len(c.Args) == 1 {
+				if c2, ok := c.Args[0].(*ast.CallExpr); ok && src(c2.Fun) == "strings.TrimSpace" && len(c2.Args) == 1 {
+					if b, ok := t.bexpr(c2.Args[0]); ok {
+						name := src(s.Lhs[0])
+						t.ints[name] = true
+						return "let " + name + " : Int := parseNum " + b + "\n" + ind + rest(1)
+					}
+				}
+			}
+		}
+		if len(s.Lhs) == 1 && len(s.Rhs) == 1 {
+			name := src(s.Lhs[0])
+			if s.Tok == token.DEFINE {
+				if v, ok := t.nexpr(s.Rhs[0]); ok {
+					t.nats[name] = true
+					return "let " + leanIdent(name) + " : Nat := " + v + "\n" + ind + rest(1)
+				}
+			}
+			// `end += width + n`
+			if s.Tok == token.ADD_ASSIGN && t.nats[name] {
+				if v, ok := t.nexpr(s.Rhs[0]); ok {
+					return "let " + leanIdent(name) + " : Nat := " + leanIdent(name) + " + " + v + "\n" + ind + rest(1)
+				}
+			}
+		}
+	case *ast.SwitchStmt:
+		// `switch r.line[:2] { case A, B: ; case C, D: return X; default: return Y }`: an empty case falls out of the switch
+		if s.Init == nil && t.rsrc(s.Tag) == "r.line[:2]" && !t.inFor {
+			out := ""
+			dflt := ""
+			okAll := true
+			for _, cs := range s.Body.List {
+				cc := cs.(*ast.CaseClause)
+				if cc.List == nil {
+					dflt = t.mblock(cc.Body, ind+"  ")
+					continue
+				}
+				var lits []string
+				for _, l := range cc.List {
+					b, ok := t.constBytes(src(l))
+					if !ok {
+						okAll = false
+					}
+					lits = append(lits, leanBytes(string(b)))
+				}
+				body := ""
+				if len(cc.Body) == 0 {
+					body = t.mblock(stmts[1:], ind+"  ")
+				} else {
+					body = t.mblock(cc.Body, ind+"  ")
+				}
+				out += "if ([" + strings.Join(lits, ", ") + "].contains (line.take 2)) then (\n" + ind + "  " + body + ")\n" + ind + "else "
+			}
+			if okAll && dflt != "" {
+				return out + "(\n" + ind + "  " + dflt + ")"
+			}
+		}
+	case *ast.RangeStmt:
+		// `for _, width := range []int{4, 5, 7} { ... }` threading the offset `end`
+		if cl, ok := s.X.(*ast.CompositeLit); ok && src(cl.Type) == "[]int" && s.Key != nil && src(s.Key) == "_" && s.Value != nil && t.nats["end"] && !t.inFor {
+			var ws []string
+			for _, el := range cl.Elts {
+				ws = append(ws, src(el))
+			}
+			w := src(s.Value)
+			t.nats[w] = true
+			t.inFor = true
+			body := t.mblock(s.Body.List, ind+"    ")
+			t.inFor = false
+			delete(t.nats, w)
+			return "match ReaderRT.forWidths [" + strings.Join(ws, ", ") + "] end_ (fun " + w + " end_ =>\n" + ind + "    " + body + ") with\n" + ind + "| Sum.inl r => r\n" + ind + "| Sum.inr end_ =>\n" + ind + rest(1)
+		}
+	}
+	return fail()
+}
+
+func emitMinLen(sb *strings.Builder, p *pkgInfo, recv string) bool {
+	ok := true
+	for _, name := range []string{"minImageViewDataLength", "minRecordLength"} {
+		t := &mlTr{rdTr: rdTr{p: p, ok: true, recv: recv, locals: map[string]string{}}, nats: map[string]bool{}, ints: map[string]bool{}, strs: map[string]string{}}
+		d := p.methods["Reader"][name]
+		body := "0"
+		if d == nil || d.Body == nil || recvName(d) != recv {
+			t.bad("minlen: Reader.%s not found", name)
+		} else {
+			body = t.mblock(d.Body.List, "  ")
+		}
+		fmt.Fprintf(sb, "/-- `Reader.%s` -/\ndef %s (m : Model) (e : Enc) (line : Bytes) : Nat :=\n  let dec : Bytes → Bytes := if e.ebcdic then m.cm.decode else id\n  %s\n\n", name, name, body)
+		if !t.ok {
+			ok = false
+		}
+		for _, w := range t.why {
+			fmt.Fprintf(os.Stderr, "OPAQUE reader %s: %s\n", name, w)
+		}
+	}
+	return ok
+}
+
 func emitReader(dir string, p *pkgInfo) {
 	t := &rdTr{p: p, ok: true}
 	var sb strings.Builder
@@ -784,7 +1174,33 @@ func emitReader(dir string, p *pkgInfo) {
 	}
 	sb.WriteString("  .error (s, s.err .plain \"?\")\n\n")
 	sb.WriteString("/-- `Reader.parseLine` -/\ndef step (m : Model) (e : Enc) (s : RState) (line : Bytes) : Except (RState × RErr) RState :=\n  match dispatch.find? (fun c => c.1.any (fun t => line.take 2 == t)) with\n  | some c => handlerOf c.2 m e s line\n  | none => .error (s, s.err .file \"recordType\")\n\n")
-	sb.WriteString("/-- the switch and every handler had a recognised shape -/\ndef recognised : Bool := " + leanBool(allOK))
+	minOK := emitMinLen(&sb, p, t.recv)
+	// Reader.Read: the body of the scan loop and the checks behind it
+	readOK := true
+	{
+		rt := &rdTr{p: p, ok: true, recv: t.recv, locals: map[string]string{}}
+		rd := p.methods["Reader"]["Read"]
+		body, fin := ".error (s, s.err .plain \"?\")", "none"
+		if rd == nil || rd.Body == nil || recvName(rd) != t.recv || len(rd.Body.List) < 4 {
+			rt.bad("reader: Read not found")
+		} else {
+			b := rd.Body.List
+			loop, isLoop := b[1].(*ast.ForStmt)
+			if rt.rsrc(b[0]) != "r.lineNum = 0" || !isLoop || loop.Init != nil || loop.Post != nil || rt.rsrc(loop.Cond) != "r.scanner.Scan()" {
+				rt.bad("reader: Read does not start with `r.lineNum = 0; for r.scanner.Scan()`")
+			} else {
+				body = rt.readBody(loop.Body.List, "  ")
+				fin = rt.readFinish(b[2:], "  ")
+			}
+		}
+		fmt.Fprintf(&sb, "/-- the body of the scan loop of `Reader.Read` for one scanned line -/\ndef readBody (m : Model) (e : Enc) (s : RState) (line : Bytes) : Except (RState × RErr) RState :=\n  %s\n\n", body)
+		fmt.Fprintf(&sb, "/-- what `Reader.Read` checks after the last line (`scanErr`: the scanner stopped with an error) -/\ndef readFinish (s : RState) (scanErr : Bool) : Option RErr :=\n  %s\n\n", fin)
+		readOK = rt.ok
+		for _, w := range rt.why {
+			fmt.Fprintf(os.Stderr, "OPAQUE reader Read: %s\n", w)
+		}
+	}
+	sb.WriteString("/-- the switch, every handler and Read had a recognised shape -/\ndef recognised : Bool := " + leanBool(allOK && readOK && minOK))
 	for _, k := range cases {
 		sb.WriteString(" && " + k.handler + "_recognised")
 	}
